@@ -518,6 +518,7 @@ template<typename Mix>
 struct OpenMix : public Mix
 {
     explicit OpenMix(Mix&& m) : Mix(std::move(m)) {}
+    bool has_anthropogenic() { return static_cast<bool>(this->anthropogenic_kernel_); }
     bool anthropogenic_eligible(int r, int c) { return this->anthropogenic_kernel_->is_cell_eligible(r, c); }
 };
 
@@ -568,7 +569,8 @@ static MixRun mix_at(int r, int c, std::uint64_t seed, std::uint64_t first, Make
     CountingStreams g;
     fresh(g);
     auto mix = make_mix(nd);
-    bool elig = mix->anthropogenic_eligible(r, c);
+    // create_dynamic_kernel may leave a disabled anthropogenic kernel out (null)
+    std::string elig = !mix->has_anthropogenic() ? "-" : mix->anthropogenic_eligible(r, c) ? "1" : "0";
     long dummy = 0;
     Obs run = observe(*mix, g, dummy, r, c);
     long A = g.ant.calls, N = g.nat.calls;
@@ -591,7 +593,7 @@ static MixRun mix_at(int r, int c, std::uint64_t seed, std::uint64_t first, Make
         choice += " bdraws=?";
     }
     MixRun out;
-    out.line = std::string("elig=") + (elig ? "1" : "0") + " choice=" + choice + " exc=" + (run.threw ? "1" : "0");
+    out.line = std::string("elig=") + elig + " choice=" + choice + " exc=" + (run.threw ? "1" : "0");
     out.raw = "cell=" + scell(r, c) + " result=" + run.what + " ant_calls=" + std::to_string(A) + " nat_calls=" + std::to_string(N)
               + " natural_alone=" + sobs(nat_alone) + " anthropogenic_alone0=" + sobs(alone[0]) + " anthropogenic_alone1="
               + sobs(alone[1]) + " natural_direction=" + (natural_is_neighbor ? DIR_TOKENS[nd] : "-");
@@ -676,6 +678,7 @@ static void real_kernel_case(int k, const std::vector<std::string>& t)
         config.natural_kernel_type = name;
         config.anthro_kernel_type = name;
         config.natural_direction = "SE";
+        config.natural_scale = config.anthro_scale;  // a scale every kernel type can build a small window from
         config.dispersal_stochasticity = t.at(3) == "1";
         std::unique_ptr<KernelInterface<Gen>> kernel;
         std::string r0 = guarded([&] {
